@@ -18,6 +18,8 @@ func TestWorker(t *testing.T) {
 		"C01/tamper": runTamper,
 		"C01/expiry": runExpiry,
 		"C04/tamper": runTamper,
+		"C11/ports":  runPorts,
+		"C17/config": runConfig,
 		"C07/scmp":   runSCMP,
 		"C09/scmp":   runSCMP,
 		"C10/scmp":   runSCMP,
